@@ -18,10 +18,12 @@ CONSTS = """CONSTANTS Names = {"n1", "n2"}
   Targets = {"A", "B"}
 """
 NS_PORTS = {"default": 9090, "other": 9191}
+UNIX_NS = "e03-nameserver.sock"
 
 
-def uri_text(q, target_loc):
-    where = "" if q["where"] == "default" else "@127.0.0.1:%d" % NS_PORTS["other"]
+def uri_text(q, target_loc, flavour=0):
+    """flavour: the other name server is reached over tcp (0) or over a Unix socket (1)"""
+    where = "" if q["where"] == "default" else ("@127.0.0.1:%d" % NS_PORTS["other"] if flavour == 0 else "@./u:" + UNIX_NS)
     if q["kind"] == "PYRO":
         return "PYRO:obj@" + target_loc[q["target"]]
     if q["kind"] == "PYRONAME":
@@ -61,6 +63,12 @@ def run_cases(cases):
         for w, port in NS_PORTS.items():
             nsd[w] = nameserver.NameServerDaemon(host="127.0.0.1", port=port)
             drivers.append(memnet.ServerDriver(nsd[w]))
+        nsd["other_unix"] = nameserver.NameServerDaemon(unixsocket=UNIX_NS)
+        drivers.append(memnet.ServerDriver(nsd["other_unix"]))
+        flavour = [0]
+
+        def ns_of(w):
+            return nsd["other_unix"] if (w == "other" and flavour[0] == 1) else nsd[w]
         loc_target = {v: k for k, v in target_loc.items()}
 
         def arrange(regs):
@@ -73,14 +81,14 @@ def run_cases(cases):
             late = [r for r in regs if r["at"] > 0]
             for r in regs:
                 if r["at"] == 0:
-                    nsd[r["ns"]].nameserver.register(r["name"], "PYRO:obj@" + target_loc[r["target"]], metadata=set(r["tags"]))
+                    ns_of(r["ns"]).nameserver.register(r["name"], "PYRO:obj@" + target_loc[r["target"]], metadata=set(r["tags"]))
             done = [not late]
             if late:
                 def later():
                     t0 = sc.now
                     for r in sorted(late, key=lambda r: r["at"]):
                         sc.sleep(max(0.0, t0 + r["at"] - sc.now))
-                        nsd[r["ns"]].nameserver.register(r["name"], "PYRO:obj@" + target_loc[r["target"]], metadata=set(r["tags"]))
+                        ns_of(r["ns"]).nameserver.register(r["name"], "PYRO:obj@" + target_loc[r["target"]], metadata=set(r["tags"]))
                     done[0] = True
                 sc.spawn(sc.fresh_name("late"), later)
             return done
@@ -96,10 +104,11 @@ def run_cases(cases):
                 return "error:" + type(x).__name__, ""
             return res
 
-        for case in cases:
+        for case_no, case in enumerate(cases):
             sc.set_budget(400000)
             q = case["q"]
-            text = uri_text(q, target_loc)
+            flavour[0] = case_no % 2
+            text = uri_text(q, target_loc, flavour[0])
             rec = {"regs": case["regs"], "q": q, "uri": text, "out": "", "target": "", "proxy_out": "", "proxy_target": ""}
             try:
                 # (1) the resolve function
